@@ -284,7 +284,7 @@ func checkProp(t *testing.T, property string, col *stats.Collector, prop func(c 
 			if p == "" {
 				p = "none"
 			}
-			if strings.HasPrefix(fmsg, "HARNESS-ERROR") {
+			if strings.HasPrefix(fmsg, "HARNESS-ERROR") && !strings.Contains(fmsg, "service panicked") { // (a panic of the server in a set-up step is the server's)
 				// the case could not be set up or evaluated (infrastructure): inconclusive, never a violation
 				fmt.Fprintf(os.Stdout, "%s (case saved as %s)\n", firstLineOf(fmsg), p)
 				return
